@@ -78,6 +78,7 @@ class Bench:
 
     _reinjecting = None
     ticks_enabled = True
+    free_targets = None               # set of computation names: only deliveries to them are interleaved freely
     fixed_schedule = False            # True: always fire the first enabled transition (one canonical schedule)
 
     # -- transitions --------------------------------------------------------------------------
@@ -156,6 +157,11 @@ class Bench:
             cands = [t for t in en if t not in sleep]
             if not cands:
                 raise PathCut()
+            if self.free_targets is not None:
+                # schedule freedom only for deliveries to the listed computations: anything else fires first, in canonical order
+                forced = [t for t in cands if self.target(t) not in self.free_targets]
+                if forced:
+                    cands = forced[:1]
             i = 0 if self.fixed_schedule else self.eng.choose(len(cands), "sched")
             t = cands[i]
             if self.sleep_sets and not self.fixed_schedule:
